@@ -131,11 +131,27 @@ pub fn expected_payload(method: &str, params: Option<&J>) -> Payload {
 			};
 			Payload::Error { code, message: Some(msg), data: Some(data) }
 		}
-		"big" => match serde_json::from_str::<(usize, u8)>(&text) {
-			Ok((len, _)) if len > 4_000_000 => err_code(-32602),
-			Ok((len, kind)) => Payload::Result(Value::String(big_string(len, kind))),
-			Err(_) => err_code(-32602),
-		},
+		"big" => {
+			let Some(J::Arr(a)) = params else { return err_code(-32602) };
+			if a.len() < 2 {
+				return err_code(-32602);
+			}
+			let Ok(len) = serde_json::from_str::<usize>(&a[0].compact()) else { return err_code(-32602) };
+			let Ok(kind) = serde_json::from_str::<u8>(&a[1].compact()) else { return err_code(-32602) };
+			let prefix = match a.get(2) {
+				None => None,
+				Some(p) => match serde_json::from_str::<Option<usize>>(&p.compact()) {
+					Ok(p) => p,
+					Err(_) => return err_code(-32602),
+				},
+			};
+			if len > 4_000_000 || prefix.unwrap_or(0) > 4_000_000 {
+				return err_code(-32602);
+			}
+			let mut s = "a".repeat(prefix.unwrap_or(0));
+			s.push_str(&big_string(len, kind));
+			Payload::Result(Value::String(s))
+		}
 		"gated" => Payload::Skip,
 		_ if method == "blocking_panic" => err_code(-32603),
 		_ => Payload::Skip,
